@@ -74,14 +74,27 @@ def summary(case, model):
 
 def read_sequential(File, data):
     """[(is_eflr, type, payload, encrypted, vr_pos, lrsh_pos)] from the code under test."""
-    out = []
+    out, kept = [], []
     with File.FileRead(engine.handle(data)) as fr:
         sul = fr.sul
         for fld in fr.iter_logical_records():
+            kept.append(fld)
             out.append((bool(fld.lr_is_eflr), fld.lr_type, bytes(fld.logical_data.bytes), bool(fld.lr_is_encrypted),
                         fld.position.vr_position, fld.position.lrsh_position))
         fr.validate_positions()
+    # the records are objects a caller may keep (list(fr.iter_logical_records())): they must still say afterwards what they
+    # said when they were yielded
+    later = [(bool(f.lr_is_eflr), f.lr_type, bytes(f.logical_data.bytes), bool(f.lr_is_encrypted),
+              f.position.vr_position, f.position.lrsh_position) for f in kept]
+    if later != out:
+        k = next(i for i, (a, b) in enumerate(zip(later, out)) if a != b)
+        raise RecordsChanged('record %d of %d read (eflr, type, %d bytes, encrypted, vr, lrsh) = %r when yielded and %r after the pass' % (
+            k, len(out), len(out[k][2]), out[k][:2] + out[k][3:], later[k][:2] + later[k][3:]))
     return sul, out
+
+
+class RecordsChanged(Exception):
+    pass
 
 
 def check(case, cc):
@@ -92,6 +105,9 @@ def check(case, cc):
     sul_m = case['sul']
     try:
         sul, got = read_sequential(File, data)
+    except RecordsChanged as err:
+        cc.dev('records==written', 'record-objects-change-after-the-pass', str(err))
+        return
     except File.ExceptionFileRead as err:
         if 'SUL' in str(err):
             sig = 'sul-rejected'
